@@ -41,6 +41,8 @@ def zexpr(n, env):
         op = {"+": "add", "-": "sub", "*": "mul", "/": "div"}[m["opcode"]]
         a, b = kids(m)
         return (op, zexpr(a, env), zexpr(b, env))
+    if m.get("kind") == "UnaryExprOrTypeTraitExpr" and m.get("name") == "sizeof":
+        return ("var", "SIZEOF")
     if m.get("kind") == "CXXMemberCallExpr":
         # _offset.size()
         me = strip(kids(m)[0])
@@ -176,6 +178,46 @@ def poly(e):
     return None
 
 
+def unpoly(p):
+    """IR of a polynomial normal form (integer coefficients)"""
+    terms = []
+    for mono, c in sorted(p.items()):
+        if c.denominator != 1:
+            raise TranslateError("non-integer coefficient")
+        t = None
+        for v in mono:
+            t = ("var", v) if t is None else ("mul", t, ("var", v))
+        if t is None:
+            t = ("num", abs(c))
+        elif abs(c) != 1:
+            t = ("mul", ("num", abs(c)), t)
+        terms.append((c < 0, t))
+    if not terms:
+        return ("num", Fraction(0))
+    e = None
+    for neg, t in terms:
+        if e is None:
+            e = ("neg", t) if neg else t
+        else:
+            e = ("sub" if neg else "add", e, t)
+    return e
+
+
+def bytes_to_count(e):
+    """sizeof(T)*count -> count: every monomial of the byte count must contain the sizeof factor exactly once"""
+    p = poly(e)
+    if p is None or not p:
+        raise TranslateError("memcpy: byte count not polynomial")
+    q = {}
+    for mono, c in p.items():
+        if list(mono).count("SIZEOF") != 1:
+            raise TranslateError("memcpy: byte count is not sizeof(element) times a count")
+        m = list(mono)
+        m.remove("SIZEOF")
+        q[tuple(m)] = c
+    return unpoly(q)
+
+
 def copy_idiom(stmts, env, want_src, want_dst, other_ok=None):
     """walks a flat statement list; returns (events, count IR, src index IR in `i`, dst index IR in `i`).
     events: list of 'copy' / names returned by other_ok(stmt) for the remaining statements."""
@@ -201,6 +243,15 @@ def copy_idiom(stmts, env, want_src, want_dst, other_ok=None):
                 rs, os_ = ptr_of(args[0], locs, env)
                 rd, od = ptr_of(args[2], locs, env)
                 got = (zexpr(args[1], env), rs, os_, rd, od)
+            elif fn == "memcpy" and len(args) == 3:
+                # std::memcpy(dst, src, sizeof(element)*count): both arrays hold floats (checked through the pointee types)
+                for a_ in args[:2]:
+                    ty = strip(a_).get("type", {}).get("qualType", "")
+                    if "float" not in ty and "meshaxis_t" not in ty and "meshdata_t" not in ty:
+                        raise TranslateError("memcpy on pointers of type %s" % ty)
+                rd, od = ptr_of(args[0], locs, env)
+                rs, os_ = ptr_of(args[1], locs, env)
+                got = (bytes_to_count(zexpr(args[2], env)), rs, os_, rd, od)
             elif fn == "copy" and len(args) == 3:
                 rs, os_ = ptr_of(args[0], locs, env)
                 rl, ol = ptr_of(args[1], locs, env)
